@@ -62,6 +62,10 @@ def sample(case, model):
 
 # ------------------------------------------------------------------ spec world
 
+# deviation switch used by the classifier of KF-C13-number-keys-by-text: number keys identified by their text
+TEXT_KEYS = False
+
+
 def keytuple(schema, item):
     """key by VALUE: (hash, range); None when an attribute is missing or has the wrong type"""
     out = []
@@ -71,7 +75,7 @@ def keytuple(schema, item):
             return None
         if typ in ("S", "N", "B") and v[typ] == "":
             return None          # a primary key attribute cannot be empty
-        out.append(canon(v))
+        out.append(("Ntext", v["N"]) if (TEXT_KEYS and typ == "N") else canon(v))
     return tuple(out)
 
 
@@ -166,6 +170,9 @@ def run_world(case, sdk, checks):
         if k == "na":
             continue
         data_op = name in ("put", "update", "delete", "get", "query", "pages", "batchWrite", "batchGet", "transactWrite")
+        if not w.failure and data_op and "failure" in checks and (expected_err(o, "InternalServerError") or expected_err(o, "ForcedFailure")):
+            w.flag(i, "failure-after-deactivation", "no failure condition is active, yet the data operation returned the emulated error %s" % json.dumps(o)[:80])
+            continue
         if w.failure and data_op:
             want = "InternalServerError" if w.failure == "internal_server" else "ForcedFailure"
             if "failure" in checks:
@@ -257,6 +264,8 @@ def run_world(case, sdk, checks):
                 if "keys" in checks and k != "err":
                     w.flag(i, "bad-key-accepted", "PutItem with a missing/ill-typed key attribute returned " + json.dumps(o)[:80])
                 continue
+            if "cond" in checks and cond_expect in ({"T"}, {"F"}) and okind(o) == "panicErr" and not w.native:
+                w.flag(i, "cond-errored", "the condition of PutItem is %s on the target item, yet the call failed with %s" % (sorted(cond_expect), json.dumps(o)[:60]))
             if k == "ok":
                 if "cond" in checks and cond_expect is not None and "T" not in cond_expect:
                     w.flag(i, "cond-should-fail", "conditional PutItem succeeded although the condition is %s on the target item" % sorted(cond_expect), impl=o)
@@ -271,6 +280,9 @@ def run_world(case, sdk, checks):
                 if "keys" in checks and k != "err":
                     w.flag(i, "bad-key-accepted", "UpdateItem with a missing/ill-typed key returned " + json.dumps(o)[:80])
                 continue
+            if "cond" in checks and cond_expect in ({"T"}, {"F"}) and okind(o) == "panicErr" and not w.native:
+                # an error of the update expression is returned, an error of the condition is the documented panic
+                w.flag(i, "cond-errored", "the condition of UpdateItem is %s on the target item, yet evaluating it failed with %s" % (sorted(cond_expect), json.dumps(o)[:60]))
             if k == "item":
                 if "native" in checks and w.native and (op["table"], norm_ws(hx(op.get("expr", "")))) not in w.updaters:
                     w.flag(i, "native-update-without-updater", "with the native interpreter active and no updater registered for this table and "
@@ -306,6 +318,8 @@ def run_world(case, sdk, checks):
                 if "keys" in checks and k != "err":
                     w.flag(i, "bad-key-accepted", "DeleteItem with a missing/ill-typed key returned " + json.dumps(o)[:80])
                 continue
+            if "cond" in checks and cond_expect in ({"T"}, {"F"}) and okind(o) == "panicErr" and not w.native:
+                w.flag(i, "cond-errored", "the condition of DeleteItem is %s on the target item, yet evaluating it failed with %s" % (sorted(cond_expect), json.dumps(o)[:60]))
             if k == "item":
                 if "cond" in checks and cond_expect is not None and "T" not in cond_expect:
                     w.flag(i, "cond-should-fail", "conditional DeleteItem succeeded although the condition is %s on the target item" % sorted(cond_expect), impl=o)
